@@ -325,11 +325,23 @@ CLAIMED.update({
     },
 })
 
+CLAIMED.update({
+    "C12": {
+        "technique": "static analysis: exhaustive path enumeration over MIR of every function handing a buffer to create_hashes (typestate of the buffer: zeroed / stale), parameter passing followed one level to the callers",
+        "level": ("Static, all paths of the 33 functions (non-test, whole workspace) that hand a buffer to create_hashes / "
+                  "ChildHashing::create_hashes — the nested-type child hashing, the buffered entry point with_hashes and scalar hashing "
+                  "inside datafusion-common, and every user (joins, repartitioning, group-by interning, byte maps, windows, aggregates): the "
+                  "buffer is a fresh vec![0; n] or was reset by clear() + resize(n, 0) with no write in between. Necessary for 'equal keys "
+                  "(NULL = NULL) hash equally': create_hashes leaves NULL slots untouched, so a stale slot makes the hash depend on an earlier "
+                  "batch (found the symmetric hash join defect repaired by fix commit ba1344a). Layout independence of the hash kernels per "
+                  "array encoding is value-level and not decided."),
+    },
+})
+
 NA = {
     'C01': 'whole-pipeline value semantics over all queries x all table contents: functional verification, no clause visible in code shape beyond C03/C05/C47',
     'C08': 'ordering/permutation of runtime values (loser tree, cursors, heaps are value algorithms); no structural clause',
     'C11': 'number-theoretic identity over 2^64 x 2^64 values: needs a proof assistant or solver (a different family)',
-    'C12': 'equality of hash values across physical encodings: kernels are value code (the scalar Hash/Eq clause is taken under C34)',
     'C13': 'history-dependent numbering of runtime keys',
     'C14': 'chain traversal over runtime hashes and offsets',
     'C22': 'soundness of the min/max rewrite is a semantic argument over value orders; its only table (Operator::swap) is decided under C04/C47',
